@@ -265,8 +265,12 @@ func (lb *LoadBalancer) setupCircuitBreaker(cfg *config.Config) {
 	}
 
 	// Set defaults
+	if cbSettings.SuccessThreshold == 0 {
+		cbSettings.SuccessThreshold = 1
+	}
 	if cbSettings.MaxRequests == 0 {
-		cbSettings.MaxRequests = 1
+		// enough half-open trials for the breaker to be able to close
+		cbSettings.MaxRequests = cbSettings.SuccessThreshold
 	}
 	if cbSettings.Interval == 0 {
 		cbSettings.Interval = time.Minute
@@ -276,9 +280,6 @@ func (lb *LoadBalancer) setupCircuitBreaker(cfg *config.Config) {
 	}
 	if cbSettings.FailureThreshold == 0 {
 		cbSettings.FailureThreshold = 5
-	}
-	if cbSettings.SuccessThreshold == 0 {
-		cbSettings.SuccessThreshold = 1
 	}
 
 	lb.circuitBreaker = circuitbreaker.NewCircuitBreaker(cbSettings)
